@@ -401,6 +401,12 @@ func judgeC16(in []byte, _ string, _ int) string {
 	prevDefEnd := int64(-1)
 	for _, rb := range blocks {
 		skip := rb.Kind() == cm.ParagraphKind && rb.StartOffset == prevDefEnd
+		// the structural situation of the property's paragraph exception, for a block that is not a paragraph:
+		// it starts where a reference definition split off the same source paragraph ends, with an indented line
+		ctx := ""
+		if rb.StartOffset == prevDefEnd && len(rb.Source) > 0 && (rb.Source[0] == ' ' || rb.Source[0] == '\t') {
+			ctx = " indented-continuation-after-definition"
+		}
 		if rb.Kind() == cm.LinkReferenceDefinitionKind {
 			prevDefEnd = rb.EndOffset
 		} else {
@@ -420,13 +426,13 @@ func judgeC16(in []byte, _ string, _ int) string {
 			got = append(got, b)
 		}
 		if len(got) != 1 {
-			return fmt.Sprintf("C16-count B%d got %d", int(rb.Kind()), len(got))
+			return fmt.Sprintf("C16-count B%d%s got %d", int(rb.Kind()), ctx, len(got))
 		}
 		var a, b strings.Builder
 		dumpNode(&a, rb.Source, rb.AsNode())
 		dumpNode(&b, got[0].Source, got[0].AsNode())
 		if a.String() != b.String() || !bytes.Equal(rb.Source, got[0].Source) {
-			return fmt.Sprintf("C16-tree B%d", int(rb.Kind()))
+			return fmt.Sprintf("C16-tree B%d%s", int(rb.Kind()), ctx)
 		}
 	}
 	return ""
